@@ -70,6 +70,19 @@ func init() {
 				s1n, s2n = 8, 8
 			}
 			salt1, salt2 := randBytes(rng, s1n), randBytes(rng, s2n)
+			pBytes := pBytes
+			if idx%2 == 1 {
+				// the parameters as one decoder would hand them over: slices of one buffer, each with the others behind it
+				// within its capacity (the caller's parameters are not the client's scratch space)
+				blob := append(append(append([]byte{}, salt1...), salt2...), pBytes...)
+				salt1, salt2, pBytes = blob[:s1n], blob[s1n:s1n+s2n], blob[s1n+s2n:]
+			}
+			salt1Copy, salt2Copy, pCopy := append([]byte{}, salt1...), append([]byte{}, salt2...), append([]byte{}, pBytes...)
+			defer func() {
+				if !bytes.Equal(salt1, salt1Copy) || !bytes.Equal(salt2, salt2Copy) || !bytes.Equal(pBytes, pCopy) {
+					disagree("C18:parameters-modified", "salt1 / salt2 / p handed to the client were changed by it", map[string]interface{}{"case": idx})
+				}
+			}()
 			env.Vars["password"], env.Vars["salt1"], env.Vars["salt2"] = term.Bytes([]byte(password)), term.Bytes(salt1), term.Bytes(salt2)
 			env.Vars["p"], env.Vars["g"] = term.Bytes(pBytes), term.Int64(int64(g))
 			small := func() *big.Int { return new(big.Int).SetBytes(randBytes(rng, 8)) }
